@@ -19,6 +19,11 @@
 //! curve), independently of the parry queries the code under test uses.  Tolerances: the clauses the statement ties to
 //! "the analysis tolerance" use exactly it; the discretisation tolerances were MEASURED on the unchanged tree
 //! (VERIF_C10_MEASURE=1 prints the worst value per clause) and fixed at >= 5x the worst value seen (constants K_*).
+//! WAVE 5 (parameter-space audit, notes/w5_audit_C10.md): sections H - K of `run()` add the shape classes (thin nose / thick
+//! tail with the maximum just ahead of mid camber BY LENGTH, strong camber > 90 degrees, stubby sections), every direction
+//! DirectionFwd may be given, oblique / tiny UpperDir vectors, the pairings of analysis and curve tolerance, explicit locator
+//! parameters, open sections x every applicable locator x every pose class, magnitudes (2e5 from the origin, scale 1000,
+//! 1e-8 motions), ties (start vertex on a tip, chord on an axis) and the ways a closed outline can be handed over.
 //! REPORTED DEFECTS of engeom this check exposes (clause names "[defect ...]", see `defect()`): OpenEdge ignores the front
 //! flag; ConstRadiusEdge appends a station whose contact points are swapped against its spanning ray; the seed station of
 //! the camber search is listed twice; Circle2::from_3_points' ABSOLUTE collinearity threshold (|det| < 1e-6) makes the
@@ -38,6 +43,7 @@ fn p2(x: f64, y: f64) -> Point2 { Point2::new(x, y) }
 fn v2(x: f64, y: f64) -> Vector2 { Vector2::new(x, y) }
 fn d2(a: &Point2, b: &Point2) -> f64 { ((a.x - b.x).powi(2) + (a.y - b.y).powi(2)).sqrt() }
 fn cross(a: &Vector2, b: &Vector2) -> f64 { a.x * b.y - a.y * b.x }
+fn rot_quarter(a: &Vector2) -> Vector2 { v2(-a.y, a.x) }
 
 // ------------------------------------------------------------------------------------------------ tolerances
 // all in units of the analysis tolerance (1e-4 L); measured worst value on the unchanged tree in brackets
@@ -76,16 +82,15 @@ impl Meter {
 #[derive(Clone, Copy, Debug, PartialEq)]
 enum Cam { Straight, Arc(f64) }
 #[derive(Clone, Copy, Debug, PartialEq)]
-enum Law { Const(f64), Taper(f64, f64), Bump { le: f64, te: f64, amp: f64 }, Ellipses { a1: f64, a2: f64, b: f64 } }
+enum Law { Const(f64), Taper(f64, f64), Bump { le: f64, te: f64, amp: f64, at: f64 }, Ellipses { a1: f64, a2: f64, b: f64 } }
 #[derive(Clone, Copy, Debug, PartialEq)]
-struct Sec { cam: Cam, len: f64, law: Law, n_side: usize, n_cap: usize, scale: f64 }
+struct Sec { cam: Cam, len: f64, law: Law, n_side: usize, n_cap: usize, scale: f64, ktol: f64, kcurve: f64 }
 
-const BUMP_AT: f64 = 0.3;
 fn ell_f(a: f64, b: f64) -> f64 { (a * a - b * b) / a }
 
 impl Sec {
-    fn env(cam: Cam, law: Law) -> Sec { Sec { cam, len: 10.0, law, n_side: 160, n_cap: 40, scale: 1.0 } }
-    fn ell(a1: f64, a2: f64, b: f64) -> Sec { Sec { cam: Cam::Straight, len: ell_f(a1, b) + ell_f(a2, b), law: Law::Ellipses { a1, a2, b }, n_side: 120, n_cap: 0, scale: 1.0 } }
+    fn env(cam: Cam, law: Law) -> Sec { Sec { cam, len: 10.0, law, n_side: 160, n_cap: 40, scale: 1.0, ktol: 1e-4, kcurve: 1e-6 } }
+    fn ell(a1: f64, a2: f64, b: f64) -> Sec { Sec { cam: Cam::Straight, len: ell_f(a1, b) + ell_f(a2, b), law: Law::Ellipses { a1, a2, b }, n_side: 120, n_cap: 0, scale: 1.0, ktol: 1e-4, kcurve: 1e-6 } }
     /// camber point, unit tangent, unit normal (tangent turned +90 degrees) at arc length s (canonical frame, unscaled)
     fn cam_at(&self, s: f64) -> (Point2, Vector2, Vector2) {
         match self.cam {
@@ -103,9 +108,9 @@ impl Sec {
         match self.law {
             Law::Const(r) => (r, 0.0),
             Law::Taper(a, b) => (a + (b - a) * u, (b - a) / self.len),
-            Law::Bump { le, te, amp } => {
-                let w = if u < BUMP_AT { BUMP_AT } else { 1.0 - BUMP_AT };
-                let z = (u - BUMP_AT) / w;
+            Law::Bump { le, te, amp, at } => {
+                let w = if u < at { at } else { 1.0 - at };
+                let z = (u - at) / w;
                 (le + (te - le) * u + amp * (1.0 - z * z), ((te - le) + amp * (-2.0 * z / w)) / self.len)
             }
             Law::Ellipses { a1, a2, b } => {
@@ -181,17 +186,27 @@ impl Sec {
             }
         }
     }
+    /// position of the maximum radius as a fraction of the part of the camber the station search covers (it stops about
+    /// 1.25 end radii before each tip)
+    fn tmax_fraction(&self) -> f64 {
+        let (s0, s1) = (1.25 * self.rad(0.0).0, self.len - 1.25 * self.rad(self.len).0);
+        (self.rmax_in(s0, s1).0 - s0) / (s1 - s0)
+    }
     fn le_point(&self) -> Point2 { let (c, t, _) = self.cam_at(0.0); c - t * self.rad(0.0).0 }
     fn te_point(&self) -> Point2 { let (c, t, _) = self.cam_at(self.len); c + t * self.rad(self.len).0 }
-    fn core_tol(&self) -> f64 { 1e-4 * self.len * self.scale }
-    fn curve_tol(&self) -> f64 { 1e-6 * self.len * self.scale }
-    fn has_fwd_max(&self) -> bool { match self.law { Law::Bump { .. } => true, Law::Ellipses { a1, a2, .. } => a1 < 0.8 * a2, Law::Taper(a, b) => a > b, _ => false } }
+    fn core_tol(&self) -> f64 { self.ktol * self.len * self.scale }
+    fn curve_tol(&self) -> f64 { self.kcurve * self.len * self.scale }
+    fn has_fwd_max(&self) -> bool { match self.law { Law::Bump { .. } => self.tmax_fraction() < 0.47, Law::Ellipses { a1, a2, .. } => a1 < 0.8 * a2, Law::Taper(a, b) => a > b, _ => false } }
 }
 
 /// how the outline is handed to the analysis: rigid pose, winding, start vertex
 #[derive(Clone, Copy, Debug, PartialEq)]
-struct Pose { angle: f64, tx: f64, ty: f64, reversed: bool, rot: usize }
-const ID: Pose = Pose { angle: 0.0, tx: 0.0, ty: 0.0, reversed: false, rot: 0 };
+struct Pose { angle: f64, tx: f64, ty: f64, reversed: bool, rot: usize,
+    /// how a CLOSED outline is handed over: 0 = open point list + force_closed (the usual way); 1 = first point repeated at the
+    /// end, force_closed = false (closed because the ends coincide); 2 = first point repeated 0.4 curve tolerances away
+    /// (closed within tolerance); 3 = as 0 with every 7th vertex listed twice and every 31st three times (duplicates)
+    closure: u8 }
+const ID: Pose = Pose { angle: 0.0, tx: 0.0, ty: 0.0, reversed: false, rot: 0, closure: 0 };
 impl Pose {
     fn iso(&self) -> Iso2 { Iso2::new(v2(self.tx, self.ty), self.angle) }
     fn apply(&self, pts: &[Point2], closed: bool, scale: f64) -> Vec<Point2> {
@@ -204,14 +219,34 @@ impl Pose {
 }
 
 #[derive(Clone, Copy, Debug, PartialEq)]
-enum Orient { Dir, TMax }
+enum Orient {
+    /// DirectionFwd along -t(0) (the tangent at the leading end), the chord c(0) - c(L), -t(L)... every one of them has the
+    /// leading end of the camber further along it than the trailing end; DirTiny: -t(0) scaled by 1e-6; DirBig: chord x 1e6
+    Dir, DirChord, DirEnd, DirTiny, DirBig, TMax }
 #[derive(Clone, Copy, Debug, PartialEq)]
-enum Edge { Intersect, Trace, Fit, ConstR, Converge, Ransac, Open, OpenGap }
+enum Edge { Intersect, Trace, Fit, ConstR, Converge, Ransac, Open, OpenGap,
+    /// the same locators with their optional parameters given explicitly / differently: TraceToMaxCurvature(Some(0.02)),
+    /// FitRadiusEdge(Some(0.5 tol)), ConvergeTangentEdge(Some(0.02 r_end)),
+    /// RansacRadiusEdge(0.05 tol, 200), OpenIntersectGap(12)
+    TraceWide, FitTight, ConvergeWide, RansacFew, OpenGapFew }
+impl Edge {
+    fn base(self) -> Edge { match self { Edge::TraceWide => Edge::Trace, Edge::FitTight => Edge::Fit, Edge::ConvergeWide => Edge::Converge, Edge::RansacFew => Edge::Ransac, Edge::OpenGapFew => Edge::OpenGap, e => e } }
+}
 #[derive(Clone, Copy, Debug, PartialEq)]
-enum Face { Up, Down, Detect }
+enum Face { Up, Down, Detect,
+    /// UpperDir with a direction 55 degrees off the camber normal towards the trailing edge, length 7 (not a unit vector)
+    UpOblique,
+    /// UpperDir(-n) scaled by 1e-3
+    DownTiny }
 #[derive(Clone, Copy, Debug, PartialEq)]
 struct Cfg { orient: Orient, le: Edge, te: Edge, face: Face }
 
+/// the direction handed to DirectionFwd (canonical frame)
+fn fwd_direction(sec: &Sec, o: Orient) -> Vector2 {
+    let (c0, t0, _) = sec.cam_at(0.0);
+    let (c1, t1, _) = sec.cam_at(sec.len);
+    match o { Orient::DirChord => (c0 - c1).normalize(), Orient::DirEnd => -t1, Orient::DirTiny => -t0 * 1e-6, Orient::DirBig => (c0 - c1) * 1e6, _ => -t0 }
+}
 fn make_edge(e: Edge, sec: &Sec) -> Box<dyn EdgeLocate> {
     let tol = sec.core_tol();
     match e {
@@ -225,6 +260,11 @@ fn make_edge(e: Edge, sec: &Sec) -> Box<dyn EdgeLocate> {
         Edge::Ransac => RansacRadiusEdge::make(1e-2 * tol, 500),
         Edge::Open => OpenEdge::make(),
         Edge::OpenGap => OpenIntersectGap::make(50),
+        Edge::TraceWide => TraceToMaxCurvature::make(Some(0.02)),
+        Edge::FitTight => FitRadiusEdge::make(Some(0.5 * tol)),
+        Edge::ConvergeWide => ConvergeTangentEdge::make(Some(0.02 * sec.rad(0.0).0.min(sec.rad(sec.len).0) * sec.scale)),
+        Edge::RansacFew => RansacRadiusEdge::make(5e-2 * tol, 200),
+        Edge::OpenGapFew => OpenIntersectGap::make(12),
     }
 }
 
@@ -232,6 +272,9 @@ fn make_edge(e: Edge, sec: &Sec) -> Box<dyn EdgeLocate> {
 fn applicable(sec: &Sec) -> Vec<Edge> {
     match sec.law {
         // circular end arcs, end circle smaller than the last searched station
+        // (an end arc of radius < 0.1 sampled with 40 points falls below Circle2::from_3_points' ABSOLUTE collinearity threshold:
+        // ConstRadiusEdge finds no arc there -- the known finding "arc detection below the absolute collinearity threshold")
+        Law::Bump { le, te, .. } if le.min(te) * sec.scale < 0.1 => vec![Edge::Intersect, Edge::Fit, Edge::Ransac],
         Law::Bump { .. } => vec![Edge::Intersect, Edge::Fit, Edge::ConstR, Edge::Ransac],
         // circular end arcs as large as / larger than the neighbouring stations: the fitted / RANSAC circle is rejected by the code
         Law::Const(_) | Law::Taper(..) => vec![Edge::Intersect, Edge::ConstR],
@@ -270,8 +313,17 @@ fn to_st(s: &InscribedCircle, back: &dyn Fn(&Point2) -> Point2, backv: &dyn Fn(&
 }
 
 fn build_section(sec: &Sec, pose: &Pose, open: Option<(bool, f64)>) -> Result<Curve2, String> {
-    let pts = pose.apply(&sec.outline(open), open.is_none(), sec.scale);
-    Curve2::from_points(&pts, sec.curve_tol(), open.is_none()).map_err(|e| format!("section: {e}"))
+    let mut pts = pose.apply(&sec.outline(open), open.is_none(), sec.scale);
+    let mut force = open.is_none();
+    if open.is_none() {
+        match pose.closure {
+            1 => { let f = pts[0]; pts.push(f); force = false; }
+            2 => { let f = pts[0]; let d = (pts[1] - pts[0]).normalize(); pts.push(f + rot_quarter(&d) * (0.4 * sec.curve_tol())); force = false; }
+            3 => { let mut q = Vec::with_capacity(pts.len() * 2); for (i, v) in pts.iter().enumerate() { q.push(*v); if i % 7 == 3 { q.push(*v); } if i % 31 == 5 { q.push(*v); q.push(*v); } } pts = q; }
+            _ => {}
+        }
+    }
+    Curve2::from_points(&pts, sec.curve_tol(), force).map_err(|e| format!("section: {e}"))
 }
 
 /// run `f` on its own thread with a watchdog; a panic or an over-long run is reported, not propagated
@@ -297,10 +349,13 @@ fn analyse(sec: Sec, pose: Pose, cfg: Cfg, open: Option<(bool, f64)>) -> Run {
         let k = 1.0 / sec.scale;
         let back = |q: &Point2| { let w = inv * q; p2(w.x * k, w.y * k) };
         let backv = |q: &Vector2| { inv * q };
-        let fwd_dir = iso * (-sec.cam_at(0.0).1);
-        let orient: Box<dyn CamberOrient> = match cfg.orient { Orient::Dir => DirectionFwd::make(fwd_dir), Orient::TMax => TMaxFwd::make() };
-        let up = iso * sec.cam_at(0.5 * sec.len).2;
-        let face = match cfg.face { Face::Up => FaceOrient::UpperDir(up), Face::Down => FaceOrient::UpperDir(-up), Face::Detect => FaceOrient::Detect };
+        let orient: Box<dyn CamberOrient> = match cfg.orient { Orient::TMax => TMaxFwd::make(), o => DirectionFwd::make(iso * fwd_direction(&sec, o)) };
+        let (_, tm, up0) = sec.cam_at(0.5 * sec.len);
+        let up = iso * up0;
+        let face = match cfg.face {
+            Face::Up => FaceOrient::UpperDir(up), Face::Down => FaceOrient::UpperDir(-up), Face::Detect => FaceOrient::Detect,
+            Face::UpOblique => FaceOrient::UpperDir(iso * (up0 * (7.0 * 0.573576436) + tm * (7.0 * 0.819152044))), Face::DownTiny => FaceOrient::UpperDir(-up * 1e-3),
+        };
         let g = AirfoilGeometry::try_analyze(&section, sec.core_tol(), orient, make_edge(cfg.le, &sec), make_edge(cfg.te, &sec), face).map_err(|e| format!("{e}"))?;
         let stations = g.stations.iter().map(|s| to_st(s, &back, &backv, k)).collect();
         let tm = g.find_tmax();
@@ -308,7 +363,7 @@ fn analyse(sec: Sec, pose: Pose, cfg: Cfg, open: Option<(bool, f64)>) -> Run {
         let thk_max = g.get_thickness_max().ok().map(pair);
         let cl = g.camber.length();
         let mut gauges = vec![];
-        for f in [0.2, 0.3, 0.5, 0.8, -0.25] { gauges.push((f, g.get_thickness(AfGage::OnCamber(f * cl)).map(pair).map_err(|e| format!("{e}")))); }
+        for f in [0.1, 0.2, 0.3, 0.5, 0.8, 0.9, -0.25] { gauges.push((f, g.get_thickness(AfGage::OnCamber(f * cl)).map(pair).map_err(|e| format!("{e}")))); }
         let mut rgauges = vec![];
         for f in [0.25, -0.25] { rgauges.push((f, g.get_thickness(AfGage::Radius(f * sec.len * sec.scale)).map(pair).map_err(|e| format!("{e}")))); }
         Ok(Out {
@@ -398,7 +453,10 @@ fn canonical_outline(sec: &Sec, open: Option<(bool, f64)>) -> Vec<Point2> {
 fn check_out(cx: &mut Ctx, sec: &Sec, pose: &Pose, cfg: &Cfg, open: Option<(bool, f64)>, o: &Out) {
     let desc = || desc_of(sec, pose, cfg, open);
     let outline = canonical_outline(sec, open);
-    let tol = 1e-4 * sec.len; // the analysis tolerance in the unscaled frame
+    let tol = sec.ktol * sec.len; // the analysis tolerance in the unscaled frame
+    // the discretisation tolerances were measured with the analysis tolerance 1e-4 L; a finer analysis tolerance does not make
+    // the polygonal outline a better approximation of the smooth envelope
+    let dtol = sec.ktol.max(1e-4) * sec.len;
     let sag = sagitta(&outline);
     let n = o.stations.len();
     cx.r.check(n >= 2, "the analysis returns at least two stations", desc);
@@ -410,7 +468,7 @@ fn check_out(cx: &mut Ctx, sec: &Sec, pose: &Pose, cfg: &Cfg, open: Option<(bool
     let mut ss = Vec::with_capacity(n);
     for (si, s) in o.stations.iter().enumerate() {
         // the station ConstRadiusEdge appends at its end of the camber line
-        let forged = (si == 0 && cfg.le == Edge::ConstR) || (si == n - 1 && cfg.te == Edge::ConstR);
+        let forged = (si == 0 && cfg.le.base() == Edge::ConstR) || (si == n - 1 && cfg.te.base() == Edge::ConstR);
         let (sa, dc) = sec.camber_closest(&s.c);
         ss.push(sa);
         // open sections: a station within two radii of the cut has no boundary on one side and is not judged
@@ -442,19 +500,19 @@ fn check_out(cx: &mut Ctx, sec: &Sec, pose: &Pose, cfg: &Cfg, open: Option<(bool
     cx.m.see("|dist(centre, section) - radius| / tol", e_insc / tol, desc);
     cx.m.see("contact point off the section / tol", e_con_on / tol, desc);
     cx.m.see("|dist(contact, centre) - radius| / tol", e_con_r / tol, desc);
-    cx.m.see("centre off the known camber / tol", e_cam / tol, desc);
-    cx.m.see("radius off the law / tol", e_law / tol, desc);
-    cx.m.see("centre beyond the medial axis off the tangent extension / tol", e_ext / tol, desc);
+    cx.m.see("centre off the known camber / tol", e_cam / dtol, desc);
+    cx.m.see("radius off the law / tol", e_law / dtol, desc);
+    cx.m.see("centre beyond the medial axis off the tangent extension / tol", e_ext / dtol, desc);
     cx.r.check(e_insc <= tol, "every station is an inscribed circle: the distance from its centre to the section equals its radius within the analysis tolerance", || format!("{} worst {:e} tol {:e}", desc(), e_insc, tol));
     cx.r.check(e_con_on <= tol, "both contact points of every station lie on the section (within the analysis tolerance)", || format!("{} worst {:e}", desc(), e_con_on));
     cx.r.check(e_con_r <= tol, "both contact points of every station are one radius from the centre within the analysis tolerance", || format!("{} worst {:e} tol {:e}", desc(), e_con_r, tol));
     cx.r.check(opp, "the contact points of every station lie on opposite sides of the camber direction", desc);
     cx.r.check(dirs, "the camber direction of every station (from its contact points) points from the leading to the trailing edge", desc);
     cx.r.check(raypos, "contact_pos of every station is the contact in the positive direction of its spanning ray", desc);
-    if cfg.le == Edge::ConstR || cfg.te == Edge::ConstR { defect(cx, forged_ok, F_CONSTR, desc); }
-    cx.r.check(e_cam <= K_LAW * tol, "station centres lie on the known camber curve within the discretisation tolerance", || format!("{} worst {:e}", desc(), e_cam));
-    cx.r.check(e_law <= K_LAW * tol, "station radii follow the known radius law within the discretisation tolerance", || format!("{} worst {:e}", desc(), e_law));
-    cx.r.check(e_ext <= K_LAW * tol, "stations beyond the end of the medial axis lie on the tangent extension of the camber", || format!("{} worst {:e}", desc(), e_ext));
+    if cfg.le.base() == Edge::ConstR || cfg.te.base() == Edge::ConstR { defect(cx, forged_ok, F_CONSTR, desc); }
+    cx.r.check(e_cam <= K_LAW * dtol, "station centres lie on the known camber curve within the discretisation tolerance", || format!("{} worst {:e}", desc(), e_cam));
+    cx.r.check(e_law <= K_LAW * dtol, "station radii follow the known radius law within the discretisation tolerance", || format!("{} worst {:e}", desc(), e_law));
+    cx.r.check(e_ext <= K_LAW * dtol, "stations beyond the end of the medial axis lie on the tangent extension of the camber", || format!("{} worst {:e}", desc(), e_ext));
     // ---- monotone from leading to trailing edge
     let (mut back, mut mingap) = (0.0f64, f64::INFINITY);
     for i in 0..n - 1 {
@@ -462,9 +520,9 @@ fn check_out(cx: &mut Ctx, sec: &Sec, pose: &Pose, cfg: &Cfg, open: Option<(bool
         let ext = |j: usize| { let (c0, t0, _) = sec.cam_at(ss[j]); ss[j] + (o.stations[j].c - c0).dot(&t0) };
         back = back.max(ext(i) - ext(i + 1)); mingap = mingap.min(ext(i + 1) - ext(i));
     }
-    cx.m.see("largest backward step between consecutive stations / tol", back / tol, desc);
-    cx.m.see("-(smallest forward step between consecutive stations) / tol", -mingap / tol, desc);
-    cx.r.check(back <= 0.1 * tol, "stations advance monotonically from the leading to the trailing edge", || format!("{} backward step {:e}", desc(), back));
+    cx.m.see("largest backward step between consecutive stations / tol", back / dtol, desc);
+    cx.m.see("-(smallest forward step between consecutive stations) / tol", -mingap / dtol, desc);
+    cx.r.check(back <= 0.1 * dtol, "stations advance monotonically from the leading to the trailing edge", || format!("{} backward step {:e}", desc(), back));
     // the seed station is listed twice by extract_camber_line (both halves start with the circle of the same spanning ray):
     // a ZERO step, which "advance monotonically" permits -- observed, not a violation. More than that one repeat is not.
     let repeats = (0..n - 1).filter(|&i| d2(&o.stations[i].c, &o.stations[i + 1].c) <= 1e-6 * sec.len).count();
@@ -475,8 +533,8 @@ fn check_out(cx: &mut Ctx, sec: &Sec, pose: &Pose, cfg: &Cfg, open: Option<(bool
     let closed_te = open.map(|(l, _)| l).unwrap_or(true);
     let kappa = if let Cam::Arc(th) = sec.cam { th / sec.len } else { 0.0 };
     for (name, e, want, is_closed, st_end, r_end) in [("leading", &o.le, sec.le_point(), closed_le, &o.stations[0], sec.rad(0.0).0), ("trailing", &o.te, sec.te_point(), closed_te, &o.stations[n - 1], sec.rad(sec.len).0)] {
-        let edge_unit = tol + sag + 0.25 * kappa * r_end * r_end;
-        let edge_tol = (if (name == "leading" && cfg.le == Edge::Converge) || (name == "trailing" && cfg.te == Edge::Converge) { K_EDGE_CONVERGE } else { K_EDGE }) * edge_unit;
+        let edge_unit = dtol + sag + 0.25 * kappa * r_end * r_end;
+        let edge_tol = (if (name == "leading" && cfg.le.base() == Edge::Converge) || (name == "trailing" && cfg.te.base() == Edge::Converge) { K_EDGE_CONVERGE } else { K_EDGE }) * edge_unit;
         match e {
             None => cx.r.check(false, "both edges are located on an accepted section", || format!("{} {} edge missing", desc(), name)),
             Some((q, tag)) => {
@@ -498,12 +556,13 @@ fn check_out(cx: &mut Ctx, sec: &Sec, pose: &Pose, cfg: &Cfg, open: Option<(bool
                         if name == "leading" { defect(cx, off <= 1e-9 * sec.len, F_OPEN, inp); } else { cx.r.check(off <= 1e-9 * sec.len, "OpenEdge at the trailing end reports the centre of the last (trailing-most) station", inp); }
                     } else {
                         let (sa, dc) = sec.camber_closest(q);
-                        cx.m.see("OpenIntersectGap edge point off the known camber / tol", dc / tol, desc);
+                        cx.m.see("OpenIntersectGap edge point off the known camber / tol", dc / dtol, desc);
                         // the gap is closed by the segment between the two cut points of the faces: c(s) - r r' t at the cut
                         let sc = if name == "leading" { smin } else { smax };
                         let want_s = sc - sec.rad(sc).0 * sec.rad(sc).1;
-                        cx.m.see("OpenIntersectGap edge point off the gap position / tol", (sa - want_s).abs() / tol, desc);
-                        cx.r.check(dc <= 5.0 * tol && (sa - want_s).abs() <= 5.0 * tol, "OpenIntersectGap edge point lies on the known camber at the cut", || format!("{} edge {:?} s={} off {:e}", desc(), q, sa, dc));
+                        cx.m.see("OpenIntersectGap edge point off the gap position / tol", (sa - want_s).abs() / dtol, desc);
+                        // [measured worst 0.22 / 1.4e-4 analysis tolerances]
+                        cx.r.check(dc <= 1.0 * dtol && (sa - want_s).abs() <= 1.0 * dtol, "OpenIntersectGap edge point lies on the known camber at the cut", || format!("{} edge {:?} s={} off {:e}", desc(), q, sa, dc));
                     }
                 }
             }
@@ -521,9 +580,10 @@ fn check_out(cx: &mut Ctx, sec: &Sec, pose: &Pose, cfg: &Cfg, open: Option<(bool
         (Some(u), Some(l)) => {
             let total = poly_len(u) + poly_len(l);
             cx.m.see("|len(upper) + len(lower) - perimeter| / curve tol", (total - o.section_len).abs() / (1e-6 * sec.len), desc);
-            cx.r.check((total - o.section_len).abs() <= 4e-6 * sec.len, "upper and lower surfaces partition the section perimeter (lengths add up)", || format!("{} {} + {} vs {}", desc(), poly_len(u), poly_len(l), o.section_len));
+            cx.r.check((total - o.section_len).abs() <= 4.0 * sec.kcurve.max(1e-6) * sec.len, "upper and lower surfaces partition the section perimeter (lengths add up)", || format!("{} {} + {} vs {}", desc(), poly_len(u), poly_len(l), o.section_len));
             let off = u.iter().chain(l.iter()).map(|q| poly_dist(&outline, q)).fold(0.0, f64::max);
-            cx.r.check(off <= 1e-9 * sec.len, "every vertex of the upper and lower surfaces lies on the section", || format!("{} worst {:e}", desc(), off));
+            // (closure 2 hands the closing vertex over 0.4 curve tolerances off the first one)
+            cx.r.check(off <= 1e-9 * sec.len + if pose.closure == 2 { 0.4 * sec.kcurve * sec.len } else { 0.0 }, "every vertex of the upper and lower surfaces lies on the section", || format!("{} worst {:e}", desc(), off));
             if open.is_none() {
                 if let (Some((le, _)), Some((te, _))) = (&o.le, &o.te) {
                     // both pieces run between the two edge points
@@ -535,7 +595,7 @@ fn check_out(cx: &mut Ctx, sec: &Sec, pose: &Pose, cfg: &Cfg, open: Option<(bool
                 }
             }
             // side: the middle of the upper surface is on the requested side of the known camber
-            let want = match cfg.face { Face::Up | Face::Detect => 1.0, Face::Down => -1.0 };
+            let want = match cfg.face { Face::Up | Face::Detect | Face::UpOblique => 1.0, Face::Down | Face::DownTiny => -1.0 };
             let side = |c: &Vec<Point2>| { let q = poly_at(c, 0.5); let (sa, _) = sec.camber_closest(&q); let (c0, _, nn) = sec.cam_at(sa); (q - c0).dot(&nn) };
             cx.r.check(side(u) * want > 0.0 && side(l) * want < 0.0, "the upper surface is on the requested / detected side, the lower surface on the other", || format!("{} upper offset {} lower offset {} wanted sign {}", desc(), side(u), side(l), want));
             // ---- maximum thickness and gauges
@@ -547,8 +607,8 @@ fn check_out(cx: &mut Ctx, sec: &Sec, pose: &Pose, cfg: &Cfg, open: Option<(bool
                 // laws with their maximum at an end: the thickest station is the end station, which the forging locators build
                 // from the end points of the detected arc (a chord, not a diameter)
                 let interior = matches!(sec.law, Law::Bump { .. } | Law::Ellipses { .. });
-                if interior { cx.m.see("|thickness_max - 2 r_max| / tol", (d2(lo, up) - 2.0 * rm).abs() / tol, desc); }
-                cx.r.check(!interior || (d2(lo, up) - 2.0 * rm).abs() <= 2.0 * K_TMAX_R * tol, "the maximum thickness is recovered (get_thickness_max == 2 max r)", || format!("{} got {} want {}", desc(), d2(lo, up), 2.0 * rm));
+                if interior { cx.m.see("|thickness_max - 2 r_max| / tol", (d2(lo, up) - 2.0 * rm).abs() / dtol, desc); }
+                cx.r.check(!interior || (d2(lo, up) - 2.0 * rm).abs() <= 2.0 * K_TMAX_R * dtol, "the maximum thickness is recovered (get_thickness_max == 2 max r)", || format!("{} got {} want {}", desc(), d2(lo, up), 2.0 * rm));
             } else { cx.r.check(false, "get_thickness_max succeeds when both surfaces are known", desc); }
             if open.is_none() {
                 for (f, g) in o.gauges.iter() {
@@ -558,14 +618,16 @@ fn check_out(cx: &mut Ctx, sec: &Sec, pose: &Pose, cfg: &Cfg, open: Option<(bool
                             // oracle: the camber curve of the analysis starts at the tip, r(0) before c(0); thickness along the
                             // normal of the TRUE camber at that position
                             let x = if *f < 0.0 { o.camber_len + f * o.camber_len } else { f * o.camber_len };
+                            // (a gauge position inside an end cap -- stubby sections -- has no oracle here)
+                            if x < 1.05 * sec.rad(0.0).0 || x > o.camber_len - 1.05 * sec.rad(sec.len).0 { continue; }
                             let s = (x - sec.rad(0.0).0).clamp(0.0, sec.len);
                             let (c0, _, nn) = sec.cam_at(s);
                             let hits = poly_line_hits(&outline, &c0, &nn);
                             let tp = hits.iter().cloned().filter(|t| *t > 0.0).fold(f64::INFINITY, f64::min);
                             let tn = hits.iter().cloned().filter(|t| *t < 0.0).fold(f64::NEG_INFINITY, f64::max);
                             let e = (d2(lo, up) - (tp - tn)).abs();
-                            cx.m.see("|gauge thickness on camber - oracle| / tol", e / tol, desc);
-                            cx.r.check(e <= K_GAUGE * tol, "gauge thickness at a camber position is recovered", || format!("{} f={} got {} want {}", desc(), f, d2(lo, up), tp - tn));
+                            cx.m.see("|gauge thickness on camber - oracle| / tol", e / dtol, desc);
+                            cx.r.check(e <= K_GAUGE * dtol, "gauge thickness at a camber position is recovered", || format!("{} f={} got {} want {}", desc(), f, d2(lo, up), tp - tn));
                             cx.r.check(poly_dist(&outline, lo) <= tol && poly_dist(&outline, up) <= tol && (up - c0).dot(&nn) * want > 0.0 && (lo - c0).dot(&nn) * want < 0.0,
                                 "gauge end points lie on the section, the upper one on the upper surface", || format!("{} f={} lower {:?} upper {:?}", desc(), f, lo, up));
                         }
@@ -593,8 +655,8 @@ fn check_out(cx: &mut Ctx, sec: &Sec, pose: &Pose, cfg: &Cfg, open: Option<(bool
     // ---- maximum thickness station
     if open.is_none() {
         let (sm, rm) = sec.rmax_in(ss[0], ss[n - 1]);
-        cx.m.see("|tmax radius - max r| / tol", (o.tmax_r - rm).abs() / tol, desc);
-        cx.r.check((o.tmax_r - rm).abs() <= K_TMAX_R * tol, "the maximum thickness station has the maximum radius of the law over the part of the camber the stations cover", || format!("{} got {} want {}", desc(), o.tmax_r, rm));
+        cx.m.see("|tmax radius - max r| / tol", (o.tmax_r - rm).abs() / dtol, desc);
+        cx.r.check((o.tmax_r - rm).abs() <= K_TMAX_R * dtol, "the maximum thickness station has the maximum radius of the law over the part of the camber the stations cover", || format!("{} got {} want {}", desc(), o.tmax_r, rm));
         if let Law::Bump { .. } | Law::Ellipses { .. } = sec.law {
             let (sa, _) = sec.camber_closest(&o.tmax_c);
             cx.m.see("|tmax position - true position| / L", (sa - sm).abs() / sec.len, desc);
@@ -607,9 +669,9 @@ fn check_out(cx: &mut Ctx, sec: &Sec, pose: &Pose, cfg: &Cfg, open: Option<(bool
 }
 
 /// invariance: the same section analysed in another pose / winding / start vertex (both already in the canonical frame)
-fn check_same(cx: &mut Ctx, sec: &Sec, pose: &Pose, cfg: &Cfg, a: &Out, b: &Out) {
-    let desc = || format!("{} vs the identity pose", desc_of(sec, pose, cfg, None));
-    let tol = 1e-4 * sec.len;
+fn check_same(cx: &mut Ctx, sec: &Sec, pose: &Pose, cfg: &Cfg, open: Option<(bool, f64)>, a: &Out, b: &Out) {
+    let desc = || format!("{} vs the identity pose", desc_of(sec, pose, cfg, open));
+    let tol = sec.ktol.max(1e-4) * sec.len;
     let mut e: f64 = 0.0;
     if let (Some(x), Some(y)) = (&a.le, &b.le) { e = e.max(d2(&x.0, &y.0)); }
     if let (Some(x), Some(y)) = (&a.te, &b.te) { e = e.max(d2(&x.0, &y.0)); }
@@ -628,7 +690,7 @@ fn check_same(cx: &mut Ctx, sec: &Sec, pose: &Pose, cfg: &Cfg, a: &Out, b: &Out)
     }
     cx.m.see(&format!("invariance [{:?}]: gauge thicknesses / tol", cfg.le), e5 / tol, desc);
     let worst = e.max(e2).max(e3).max(e4).max(e5);
-    let kinv = if cfg.le == Edge::Converge || cfg.te == Edge::Converge { K_INV_CONVERGE } else { K_INV };
+    let kinv = if cfg.le.base() == Edge::Converge || cfg.te.base() == Edge::Converge { K_INV_CONVERGE } else { K_INV };
     cx.r.check(worst <= kinv * tol, "results are unchanged (up to tolerance) by rigidly moving the section, reversing its vertex order or rotating its start vertex",
         || format!("{} edge {:e} tmax/camber {:e} centres {:e} surfaces {:e} gauges {:e} allowed {:e}", desc(), e, e2, e3, e4, e5, kinv * tol));
     cx.r.check(a.upper.is_some() == b.upper.is_some() && a.le.map(|x| x.1) == b.le.map(|x| x.1) && a.te.map(|x| x.1) == b.te.map(|x| x.1), "the same edges / surfaces are found in every pose", desc);
@@ -783,9 +845,9 @@ fn check_helpers(cx: &mut Ctx, sec: Sec, pose: Pose) {
 
 pub fn run() -> Option<Report> {
     let mut cx = Ctx { known: std::fs::read_to_string(std::env::var("VERIF_KNOWN_FINDINGS").unwrap_or_else(|_| "/verif/known_findings.json".to_string())).unwrap_or_default(), r: Report::new(
-        "envelope sections (straight / circular-arc camber of 0.3, 0.6 rad, L = 10, radius laws: constant 0.4 / 0.5, taper 0.5 -> 0.25 and 0.3 -> 0.5, NACA-like bump with end radii 0.15 / 0.1 and maximum 0.635 at 30 %) and half-ellipse pairs (3 | 7 x 0.6, 4 | 4 x 1), 160 / 120 points per face and 40 per end arc (+ densities 100/32 and 320/80 on two sections), scale 0.1 / 1 / 10, 3 rigid motions x 2 windings x 3 start vertices; DirectionFwd / TMaxFwd x the applicable locators of {IntersectEdge, FitRadiusEdge, ConstRadiusEdge, RansacRadiusEdge, TraceToMaxCurvature, ConvergeTangentEdge} on both ends x UpperDir(+n) / UpperDir(-n) / Detect; open sections (trailing or leading 30 % cut away) with OpenEdge / OpenIntersectGap; analysis tolerance 1e-4 L; OrientedCircles / reversal / orientation helpers and every locator called directly at both ends on the stations of 4 sections; thorough tier: 3 more sections (bump 0.2 / 0.2 / 0.3 on 0.3 rad, taper 0.6 -> 0.2 on 0.45 rad, ellipses 2 | 6 x 0.5), every pose of the invariance sweep, and the full cross product locator(LE) x locator(TE) x orientation x face on every section"), m: Meter::new() };
+        "envelope sections (straight / circular-arc camber of 0.3, 0.6 rad, L = 10, radius laws: constant 0.4 / 0.5, taper 0.5 -> 0.25 and 0.3 -> 0.5, NACA-like bump with end radii 0.15 / 0.1 and maximum 0.635 at 30 %) and half-ellipse pairs (3 | 7 x 0.6, 4 | 4 x 1), 160 / 120 points per face and 40 per end arc (+ densities 100/32 and 320/80 on two sections), scale 0.1 / 1 / 10, 3 rigid motions x 2 windings x 3 start vertices; DirectionFwd / TMaxFwd x the applicable locators of {IntersectEdge, FitRadiusEdge, ConstRadiusEdge, RansacRadiusEdge, TraceToMaxCurvature, ConvergeTangentEdge} on both ends x UpperDir(+n) / UpperDir(-n) / Detect; open sections (trailing or leading 30 % cut away) with OpenEdge / OpenIntersectGap; analysis tolerance 1e-4 L; OrientedCircles / reversal / orientation helpers and every locator called directly at both ends on the stations of 4 sections; thorough tier: 3 more sections (bump 0.2 / 0.2 / 0.3 on 0.3 rad, taper 0.6 -> 0.2 on 0.45 rad, ellipses 2 | 6 x 0.5), every pose of the invariance sweep, and the full cross product locator(LE) x locator(TE) x orientation x face on every section. WAVE 5 (parameter-space audit): bump laws with a thin nose / thick tail and the maximum at 44 % of the camber length (and the mirror image), camber arcs turning 1.8 / 2.0 / 2.4 rad, stubby sections (L 1.6 / 2.4 with radii 0.5 .. 0.7, ellipses 1.6 | 1.6 x 1); DirectionFwd along -t(0), the chord, -t(L), x 1e-6, x 1e6; UpperDir 55 degrees off the normal with length 7 and -n x 1e-3; (analysis tolerance, curve tolerance) / L in {(1e-5, 1e-4), (1e-5, 1e-7), (1e-4, 1e-4), (1e-3, 1e-6), (1e-3, 5e-4), (2e-5, 2e-5)}; locator parameters Fit(0.5 tol), Ransac(0.05 tol, 200), Trace(0.02), Converge(0.02 r), OpenIntersectGap(12); open sections with every locator applicable to the closed end x OpenEdge / OpenIntersectGap x 8 pose classes (origin ahead of / behind / beside the closed edge, 2e4 away, half turn, other vertex order), each against the identity pose; poses 2e5 from the origin, near-identity (1e-8), chord on the y axis; scale 100 / 1000; start vertex on the tips / next to the seam; outline closed by coincidence / within the curve tolerance / with duplicated vertices; gauges at 0.1 and 0.9 of the camber"), m: Meter::new() };
 
-    let bump = Law::Bump { le: 0.15, te: 0.1, amp: 0.5 };
+    let bump = Law::Bump { le: 0.15, te: 0.1, amp: 0.5, at: 0.3 };
     let mut secs = vec![
         Sec::env(Cam::Straight, bump), Sec::env(Cam::Arc(0.3), bump), Sec::env(Cam::Arc(0.6), bump),
         Sec::env(Cam::Arc(0.6), Law::Taper(0.5, 0.25)), Sec::env(Cam::Straight, Law::Taper(0.3, 0.5)),
@@ -793,7 +855,7 @@ pub fn run() -> Option<Report> {
         Sec::ell(3.0, 7.0, 0.6), Sec::ell(4.0, 4.0, 1.0),
     ];
     if thorough() {
-        secs.push(Sec::env(Cam::Arc(0.3), Law::Bump { le: 0.2, te: 0.2, amp: 0.3 }));
+        secs.push(Sec::env(Cam::Arc(0.3), Law::Bump { le: 0.2, te: 0.2, amp: 0.3, at: 0.3 }));
         secs.push(Sec::env(Cam::Arc(0.45), Law::Taper(0.6, 0.2)));
         secs.push(Sec::ell(2.0, 6.0, 0.5));
     }
@@ -830,8 +892,8 @@ pub fn run() -> Option<Report> {
                     for rot in [0, nv / 3, 2 * nv / 3 + 1] {
                         if mi == 0 && !reversed && rot == 0 { continue; }
                         if !thorough() && (mi + rot + reversed as usize) % 2 == 1 && mi > 0 && rot > 0 { continue; }
-                        let pose = Pose { angle: *angle, tx: tx * sec.scale, ty: ty * sec.scale, reversed, rot };
-                        if let Some(o) = run_case(&mut cx, sec, &pose, cfg, None) { check_same(&mut cx, sec, &pose, cfg, &base, &o); }
+                        let pose = Pose { angle: *angle, tx: tx * sec.scale, ty: ty * sec.scale, reversed, rot, closure: 0 };
+                        if let Some(o) = run_case(&mut cx, sec, &pose, cfg, None) { check_same(&mut cx, sec, &pose, cfg, None, &base, &o); }
                     }
                 }
             }
@@ -842,7 +904,7 @@ pub fn run() -> Option<Report> {
         for scale in [0.1, 10.0] {
             let sec = Sec { scale, ..base };
             for e in applicable(&sec) {
-                let pose = Pose { angle: 0.7, tx: 3.0 * scale, ty: -2.0 * scale, reversed: false, rot: 7 };
+                let pose = Pose { angle: 0.7, tx: 3.0 * scale, ty: -2.0 * scale, reversed: false, rot: 7, closure: 0 };
                 let cfg = Cfg { orient: Orient::Dir, le: e, te: e, face: Face::Up };
                 // Circle2::from_3_points rejects |det| < 1e-6 (absolute): on a chord-1 section the vertex triples of the end arcs /
                 // tips count as collinear, ConstRadiusEdge finds no arc (Err: the section is not accepted) and the curvature
@@ -863,11 +925,128 @@ pub fn run() -> Option<Report> {
             }
         }
     }
-    // ---- E. open sections
+    // ---- E. open sections: every locator applicable to the closed end x both open-edge methods x every pose class (the
+    // origin ahead of / behind / beside the closed edge, far away, turned, given in the other vertex order), each checked
+    // clause by clause AND against the identity pose
+    let open_poses = [
+        Pose { angle: 0.0, tx: 100.0, ty: 0.0, reversed: false, rot: 0, closure: 0 }, Pose { angle: 0.0, tx: -100.0, ty: 0.0, reversed: true, rot: 0, closure: 0 },
+        Pose { angle: 0.0, tx: 0.0, ty: 100.0, reversed: true, rot: 0, closure: 0 }, Pose { angle: 0.0, tx: 0.0, ty: -100.0, reversed: false, rot: 0, closure: 0 },
+        Pose { angle: 2.5, tx: -40.0, ty: 25.0, reversed: true, rot: 0, closure: 0 }, Pose { angle: -1.9, tx: 7.0, ty: 3.0, reversed: false, rot: 0, closure: 0 },
+        Pose { angle: std::f64::consts::PI, tx: 5.0, ty: 0.0, reversed: false, rot: 0, closure: 0 }, Pose { angle: 0.7, tx: 1e4, ty: -2e4, reversed: true, rot: 0, closure: 0 },
+    ];
     for sec in [secs[0], secs[1]] {
-        for pose in [ID, Pose { angle: 2.5, tx: -40.0, ty: 25.0, reversed: true, rot: 0 }] {
-            for te in [Edge::Open, Edge::OpenGap] { run_case(&mut cx, &sec, &pose, &Cfg { orient: Orient::Dir, le: Edge::Intersect, te, face: Face::Up }, Some((false, 0.7))); }
-            for le in [Edge::Open, Edge::OpenGap] { run_case(&mut cx, &sec, &pose, &Cfg { orient: Orient::Dir, le, te: Edge::Intersect, face: Face::Up }, Some((true, 0.3))); }
+        for (open, closed_is_le) in [(Some((false, 0.7)), true), (Some((true, 0.3)), false)] {
+            for ce in applicable(&sec) {
+                for oe in [Edge::Open, Edge::OpenGap, Edge::OpenGapFew] {
+                    if oe != Edge::Open && !(ce == Edge::Intersect || ce == Edge::Fit) { continue; }
+                    if oe == Edge::OpenGapFew && ce != Edge::Intersect { continue; }
+                    let cfg = if closed_is_le { Cfg { orient: Orient::Dir, le: ce, te: oe, face: Face::Up } } else { Cfg { orient: Orient::Dir, le: oe, te: ce, face: Face::Up } };
+                    let base = match run_case(&mut cx, &sec, &ID, &cfg, open) { Some(b) => b, None => continue };
+                    for (pi, pose) in open_poses.iter().enumerate() {
+                        if !thorough() && oe != Edge::Open && pi % 2 == 1 { continue; }
+                        if let Some(o) = run_case(&mut cx, &sec, pose, &cfg, open) { check_same(&mut cx, &sec, pose, &cfg, open, &base, &o); }
+                    }
+                }
+            }
+        }
+    }
+    // ---- H. shape classes the sections above avoid: (1) a thin nose and a thick tail with the maximum thickness only just
+    // ahead of mid camber BY LENGTH (the 0.25 r station spacing puts most STATIONS ahead of it), and its mirror image (maximum
+    // aft: TMaxFwd not applicable); (2) strong camber, turning more than 90 degrees (the local heading at either end differs
+    // from the end-to-end direction by more than a right angle between the two ends); every direction DirectionFwd may
+    // legitimately be given (tangent at the leading end, chord, tangent at the trailing end, tiny, huge), three poses each
+    // because which end the camber search lists first depends on the hull's farthest pair and the winding
+    let thin = Law::Bump { le: 0.05, te: 0.25, amp: 0.45, at: 0.35 };
+    let blunt = Law::Bump { le: 0.25, te: 0.05, amp: 0.45, at: 0.65 };
+    let shapes = [
+        Sec::env(Cam::Arc(0.3), thin), Sec::env(Cam::Straight, thin), Sec::env(Cam::Arc(0.3), blunt),
+        Sec::env(Cam::Arc(2.0), bump), Sec::env(Cam::Arc(1.8), Law::Taper(0.5, 0.25)), Sec::env(Cam::Arc(2.4), Law::Const(0.4)),
+    ];
+    // (the third pose turns the chord EXACTLY onto the y axis)
+    let shape_poses = [ID, Pose { angle: 2.5, tx: -40.0, ty: 25.0, reversed: true, rot: 57, closure: 0 }, Pose { angle: -1.1, tx: 3.0, ty: 8.0, reversed: false, rot: 211, closure: 0 }, Pose { angle: std::f64::consts::FRAC_PI_2, tx: 0.0, ty: 0.0, reversed: false, rot: 101, closure: 0 }];
+    for sec in shapes.iter() {
+        let mut os = vec![Orient::Dir, Orient::DirChord, Orient::DirEnd, Orient::DirTiny, Orient::DirBig];
+        if sec.has_fwd_max() { os.push(Orient::TMax); }
+        for (oi, orient) in os.iter().enumerate() {
+            let cfg = Cfg { orient: *orient, le: Edge::Intersect, te: Edge::Intersect, face: [Face::Up, Face::Down, Face::Detect, Face::UpOblique, Face::DownTiny][oi % 5] };
+            let base = match run_case(&mut cx, sec, &ID, &cfg, None) { Some(b) => b, None => continue };
+            for pose in shape_poses.iter().skip(1) {
+                if let Some(o) = run_case(&mut cx, sec, pose, &cfg, None) { check_same(&mut cx, sec, pose, &cfg, None, &base, &o); }
+            }
+        }
+        for e in applicable(sec) {
+            if e == Edge::Intersect { continue; }
+            run_case(&mut cx, sec, &shape_poses[1], &Cfg { orient: Orient::DirChord, le: e, te: e, face: Face::Up }, None);
+        }
+    }
+    // stubby sections: the edge region beyond the last station is 25 % .. 40 % of the perimeter (the locators that cut an edge
+    // sub-curve out of the section ask for 'less than 40 %', the helper's own default is 25 %)
+    for sec in [Sec { len: 1.6, n_side: 60, n_cap: 80, ..Sec::env(Cam::Straight, Law::Const(0.5)) }, Sec { len: 2.4, n_side: 80, n_cap: 80, ..Sec::env(Cam::Arc(0.4), Law::Taper(0.7, 0.55)) }, Sec::ell(1.6, 1.6, 1.0)] {
+        for e in applicable(&sec) {
+            // (on the stubby ellipse ConvergeTangentEdge answers Ok WITHOUT an edge point -- 'not found', which the locator
+            // interface allows: not applicable)
+            if e == Edge::Converge && matches!(sec.law, Law::Ellipses { .. }) { continue; }
+            for pose in [ID, shape_poses[3]] { run_case(&mut cx, &sec, &pose, &Cfg { orient: Orient::DirChord, le: e, te: e, face: Face::Up }, None); }
+        }
+    }
+    // the directions and the face variants on the ordinary sections as well
+    for (si, sec) in secs.iter().enumerate() {
+        let orient = [Orient::DirChord, Orient::DirEnd, Orient::DirTiny, Orient::DirBig][si % 4];
+        let face = [Face::UpOblique, Face::DownTiny][si % 2];
+        run_case(&mut cx, sec, &shape_poses[1 + si % 2], &Cfg { orient, le: Edge::Intersect, te: Edge::Intersect, face }, None);
+    }
+    // ---- I. tolerance pairings: analysis tolerance finer / coarser than usual against a section curve built with a point
+    // tolerance smaller than, equal to and LARGER than it (clauses tied to the analysis tolerance use exactly it)
+    for base in [secs[1], secs[3], secs[7]] {
+        for (ktol, kcurve) in [(1e-5, 1e-4), (1e-5, 1e-7), (1e-4, 1e-4), (1e-3, 1e-6), (1e-3, 5e-4), (2e-5, 2e-5)] {
+            let sec = Sec { ktol, kcurve, ..base };
+            // (ConstRadiusEdge forges its end station from the TRUE end circle: on a polygon whose end-arc sagitta exceeds the
+            // analysis tolerance that station is not an inscribed circle of the polygon -- outside the family)
+            let second = if applicable(&sec)[1] == Edge::ConstR && ktol < 1e-4 { Edge::Intersect } else { applicable(&sec)[1] };
+            run_case(&mut cx, &sec, &ID, &Cfg { orient: Orient::Dir, le: Edge::Intersect, te: Edge::Intersect, face: Face::Up }, None);
+            run_case(&mut cx, &sec, &shape_poses[1], &Cfg { orient: Orient::DirChord, le: second, te: Edge::Intersect, face: Face::Down }, None);
+        }
+    }
+    // ---- J. the optional parameters of the locators given explicitly / differently
+    for (sec, list) in [(secs[1], vec![Edge::FitTight, Edge::RansacFew]), (secs[0], vec![Edge::FitTight, Edge::RansacFew]), (secs[7], vec![Edge::TraceWide, Edge::ConvergeWide]), (secs[8], vec![Edge::TraceWide, Edge::ConvergeWide])] {
+        for e in list {
+            run_case(&mut cx, &sec, &ID, &Cfg { orient: Orient::Dir, le: e, te: e, face: Face::Up }, None);
+            run_case(&mut cx, &sec, &shape_poses[2], &Cfg { orient: Orient::DirEnd, le: e, te: Edge::Intersect, face: Face::Down }, None);
+        }
+    }
+    // ---- K. magnitudes, ties and sequences: a near-identity motion (1e-8 rad, 1e-8 translation), a pose 2e5 from the
+    // origin, sections of chord 1e3 / 1e4 (scale 100 / 1000), the start vertex ON the leading tip / the trailing tip / next to
+    // the seam, a closed outline handed over closed-by-coincidence / closed within the curve tolerance / with duplicated
+    // vertices, and the same analysis twice (every result against the identity pose)
+    for (si, sec) in [secs[1], secs[4], secs[7], shapes[3]].iter().enumerate() {
+        let nv = sec.outline(None).len();
+        let second = *applicable(sec).last().unwrap();
+        for cfg in [Cfg { orient: Orient::Dir, le: Edge::Intersect, te: Edge::Intersect, face: Face::Up }, Cfg { orient: Orient::DirChord, le: second, te: second, face: Face::Down }] {
+            let base = match run_case(&mut cx, sec, &ID, &cfg, None) { Some(b) => b, None => continue };
+            let tip_le = if let Law::Ellipses { .. } = sec.law { 0 } else { 2 * (sec.n_side + 1) + sec.n_cap + sec.n_cap / 2 };
+            let tip_te = if let Law::Ellipses { .. } = sec.law { 2 * sec.n_side } else { sec.n_side + 1 + sec.n_cap / 2 };
+            let poses = [
+                ID,
+                Pose { angle: 1e-8, tx: 1e-8, ty: -1e-8, reversed: false, rot: 0, closure: 0 },
+                Pose { angle: 0.3, tx: 2e5, ty: -1e5, reversed: si % 2 == 0, rot: 3, closure: 0 },
+                Pose { angle: 0.0, tx: 0.0, ty: 0.0, reversed: false, rot: tip_le, closure: 0 },
+                Pose { angle: 0.0, tx: 0.0, ty: 0.0, reversed: true, rot: tip_te, closure: 0 },
+                Pose { angle: 0.0, tx: 0.0, ty: 0.0, reversed: false, rot: 1, closure: 0 },
+                Pose { angle: 0.0, tx: 0.0, ty: 0.0, reversed: false, rot: nv - 1, closure: 0 },
+                Pose { angle: 0.7, tx: 3.0, ty: -2.0, reversed: false, rot: 17, closure: 1 },
+                Pose { angle: 0.7, tx: 3.0, ty: -2.0, reversed: true, rot: 0, closure: 2 },
+                Pose { angle: -1.9, tx: 7.0, ty: 3.0, reversed: si % 2 == 1, rot: nv / 2, closure: 3 },
+            ];
+            for pose in poses.iter() {
+                // (2e5 from the origin Circle2::from_3_points -- absolute coordinates in a 3 x 3 determinant -- has lost the digits
+                // the arc detection of ConstRadiusEdge lives on: the same family as the known finding on small / fine arcs)
+                if pose.tx == 2e5 && cfg.le == Edge::ConstR { continue; }
+                if let Some(o) = run_case(&mut cx, sec, pose, &cfg, None) { check_same(&mut cx, sec, pose, &cfg, None, &base, &o); }
+            }
+        }
+        for scale in [100.0, 1000.0] {
+            let big = Sec { scale, ..*sec };
+            run_case(&mut cx, &big, &Pose { angle: 0.7, tx: 3.0 * scale, ty: -2.0 * scale, reversed: si % 2 == 0, rot: 7, closure: 0 }, &Cfg { orient: Orient::Dir, le: Edge::Intersect, te: Edge::Intersect, face: Face::Up }, None);
         }
     }
     // ---- G. (thorough) the full cross product of locator pairs x orientation methods x face modes on every section
@@ -876,12 +1055,12 @@ pub fn run() -> Option<Report> {
             let mut os = vec![Orient::Dir];
             if sec.has_fwd_max() { os.push(Orient::TMax); }
             for le in applicable(sec) { for te in applicable(sec) { for orient in os.iter() { for face in up_faces(sec) {
-                run_case(&mut cx, sec, &Pose { angle: 0.7, tx: 3.0, ty: -2.0, reversed: true, rot: 5 }, &Cfg { orient: *orient, le, te, face }, None);
+                run_case(&mut cx, sec, &Pose { angle: 0.7, tx: 3.0, ty: -2.0, reversed: true, rot: 5, closure: 0 }, &Cfg { orient: *orient, le, te, face }, None);
             } } } }
         }
     }
     // ---- F. containers, reversal, orientation, locators called directly
-    for (sec, pose) in [(secs[1], ID), (secs[3], Pose { angle: 0.7, tx: 3.0, ty: -2.0, reversed: true, rot: 11 }), (secs[7], ID), (secs[0], Pose { angle: -1.9, tx: 100.0, ty: 50.0, reversed: false, rot: 5 })] {
+    for (sec, pose) in [(secs[1], ID), (secs[3], Pose { angle: 0.7, tx: 3.0, ty: -2.0, reversed: true, rot: 11, closure: 0 }), (secs[7], ID), (secs[0], Pose { angle: -1.9, tx: 100.0, ty: 50.0, reversed: false, rot: 5, closure: 0 })] {
         check_helpers(&mut cx, sec, pose);
     }
     cx.m.dump();
